@@ -145,7 +145,8 @@ def scene_layered(draw, max_layers=5, n_t=(3, 40), n_ceilos=(1, 4), lone=True):
             h = float(draw(st.integers(0, 99999)))
             if h not in hits[i]:
                 hits[i].append(h)
-    vv = [v < 4 for v in ints(draw, 0, 99, n)]
+    vv_share = draw(st.sampled_from([4, 4, 4, 60, 100]))     # share of single-hit measurements reported as VV
+    vv = [v < vv_share for v in ints(draw, 0, 99, n)]
     rows = rows_from_hits(meas, hits, vv)
     return {'cls': 'layered', 'rows': draw(order_rows(rows))}
 
